@@ -17,7 +17,10 @@
    order `perm` (identity / identity and reverse / every permutation) and carry
    the tag sets `tg` (disjoint, equal, contradictory ...).  `arr` is the
    arrangement of the group lines relative to the base graph (1 graph first,
-   2 groups first, 3 segments-groups-edges, 4 edges-groups-segments).
+   2 groups first, 3 segments-groups-edges, 4 edges-groups-segments; 5 and up:
+   an order of the blocks S, E, F, G, group lines but the last, last group
+   line -- a code that only harness/fam_groups.py interprets: the base graph
+   may contain fragments and gaps, which create placeholders like E lines do).
 
    Every case is one TLC state; the single invariant Case prints it
    ("CASE <<arr, lines, classes>>": the lines as indices into the catalogue
@@ -98,7 +101,7 @@ PermsFor(n) ==
     [] Fam.orders = "rev" -> {Ident(n), [i \in 1..n |-> n + 1 - i]}
     [] OTHER -> {Ident(n)}
 
-\* shard of a case: a hash of its item lists
+\* shard of a case: a hash of its item lists (and of the arrival order and arrangement)
 RECURSIVE Hash(_, _)
 Hash(s, h) == IF s = <<>> THEN h ELSE Hash(Tail(s), (h * 31 + Head(s)) % 10007)
 Key(a, b, c, d) == Hash(a \o <<0>> \o b \o <<0>> \o c \o <<0>> \o d, 7)
@@ -131,12 +134,12 @@ Init ==
   /\ s2 \in SlotSet(2)
   /\ s3 \in SlotSet(3)
   /\ s4 \in SlotSet(4)
-  /\ Key(s1, s2, s3, s4) % Fam.nsh = Fam.sh
-  /\ Fam.kind = "repeat" => Repeating(s1, s2, s3, s4)
+  /\ Fam.kind = "repeat" => (Key(s1, s2, s3, s4) % Fam.nsh = Fam.sh /\ Repeating(s1, s2, s3, s4))
   /\ cut \in Cuts(Len(s1))
   /\ tg \in {t \in Rng(Fam.tagsets) : Len(t) = Len(cut)}
   /\ perm \in PermsFor(Len(cut) + NS - 1)
   /\ arr \in Rng(Fam.arrs)
+  /\ Fam.kind # "repeat" => (Key(s1, s2, s3, s4) + 13 * arr + Hash(perm, 3) + 5 * Len(cut)) % Fam.nsh = Fam.sh
 Next == UNCHANGED vars
 Spec == Init /\ [][Next]_vars
 
